@@ -56,6 +56,7 @@ type scenario struct {
 	// that cannot be sent ("oversize": larger than a UDP datagram; "fail": the socket's next
 	// send fails). In batch mode the write is only queued, so the failure surfaces in Close.
 	LastWrite string `json:"lastWrite,omitempty"`
+	DoubleClose bool `json:"doubleClose,omitempty"` // the racy closer of a connection is doubled: two workers call Close at the same time
 	ReadGapNs int64  `json:"readGapNs,omitempty"` // readers pause this long before every Read (lagging readers keep data in the connection's ring)
 }
 
@@ -71,7 +72,7 @@ func gen(r *harn.Rng, tier string) interface{} {
 	for i := 0; i < nr; i++ {
 		var plan []dg
 		for j, n := 0, r.Range(1, 6); j < n; j++ {
-			plan = append(plan, dg{GapNs: gaps[r.Intn(len(gaps))], Len: r.Pick(8, 8, 20, 200, 1400, 2045, 2046, 2047, 8000, 8191, 8192), Odd: r.Bool(0.3)})
+			plan = append(plan, dg{GapNs: gaps[r.Intn(len(gaps))], Len: r.Pick(8, 8, 20, 200, 1400, 2045, 2046, 2047, 8000, 8191, 8192, 8, 20, 200, 1400, 0), Odd: r.Bool(0.3)})
 		}
 		if r.Bool(0.12) {
 			// two small datagrams and one that ends exactly at the end of the connection's 2 KiB ring
@@ -115,6 +116,7 @@ func gen(r *harn.Rng, tier string) interface{} {
 		}
 		sc.ReCloseAtNs = append(sc.ReCloseAtNs, t)
 	}
+	sc.DoubleClose = r.Bool(0.3)
 	if r.Bool(0.15) {
 		sc.LastWrite = []string{"oversize", "fail"}[r.Intn(2)]
 	}
@@ -134,6 +136,9 @@ type connRec struct {
 }
 
 func payload(remote, seq int, n int, odd bool) []byte {
+	if n == 0 {
+		return []byte{} // an empty datagram is a datagram
+	}
 	if n < 8 {
 		n = 8
 	}
@@ -229,7 +234,15 @@ func run(env *simrt.Env, sci interface{}) {
 					}
 					if rec.closeInv == 0 {
 						rec.closeInv = env.Stamp()
+						var twin *simrt.Handle
+						if sc.DoubleClose {
+							twin = env.Go(fmt.Sprintf("closer%db", rec.idx), func() { _ = rec.conn.Close() })
+						}
 						_ = rec.conn.Close()
+						if twin != nil {
+							env.Join(twin)
+							env.Fault("concurrent-double-close")
+						}
 						rec.closeRet = env.Stamp()
 						env.Fault("racy-conn-close")
 					}
@@ -605,7 +618,7 @@ func run(env *simrt.Env, sci interface{}) {
 			}
 			if explained == "" && !definitelyOpen {
 				switch {
-				case sc.Filter && len(a.payload) > 0 && a.payload[0]%2 == 1:
+				case sc.Filter && (len(a.payload) == 0 || a.payload[0]%2 == 1):
 					explained = "refused by the accept filter"
 				case backlogMaybeFull(a, rk):
 					explained = "backlog full"
